@@ -639,63 +639,32 @@ func ruleC06(c *Ctx) {
 		} else {
 			c.bad("C06-R3", fname, "OneTimeUse <=> condition present", pos, "path does not test Conditions.OneTimeUse for nil")
 		}
-		// proxy restriction
+		// proxy restriction: decided on the final state of the returned summary, whatever statements built it
 		prPresent := atoms["!(A.Conditions.ProxyRestriction == nil)"]
 		prAbsent := atoms["A.Conditions.ProxyRestriction == nil"]
-		var prStore *Event
-		for _, e := range storesToField(t, "ProxyRestriction") {
-			prStore = e
-		}
 		if !(prPresent || prAbsent) {
 			c.bad("C06-R3", fname, "ProxyRestriction <=> condition present", pos, "path does not test Conditions.ProxyRestriction for nil")
 			continue
 		}
 		nPR++
+		prv, state := t.finalFieldState(t.Vals[0], "ProxyRestriction")
+		isAbsent := state == "zero" || (state == "stored" && isNilConst(prv))
 		if prAbsent {
-			c.check(prStore == nil, "C06-R3", fname, "no ProxyRestriction condition => summary absent", pos, "nothing stored", "a ProxyRestriction summary is produced without the condition")
+			c.check(isAbsent, "C06-R3", fname, "no ProxyRestriction condition => summary absent", pos, "summary is nil", "a ProxyRestriction summary ("+apOrNone(prv)+") is produced without the condition")
 			continue
 		}
-		if prStore == nil {
-			c.bad("C06-R3", fname, "ProxyRestriction condition => summary present", pos, "condition present but no summary stored")
+		if isAbsent || state != "stored" {
+			c.bad("C06-R3", fname, "ProxyRestriction condition => summary present", pos, "condition present but the summary is "+state+" "+apOrNone(prv))
 			continue
 		}
-		obj := prStore.Val
+		obj := prv
 		cnt, _ := t.finalField(obj, "Count")
-		c.check(cnt != nil && ap(cnt) == "A.Conditions.ProxyRestriction.Count", "C06-R3", fname, "ProxyRestriction.Count copied", pos, "Count <- signed Count", "Count is "+ap(cnt)+", want A.Conditions.ProxyRestriction.Count")
-		// audience: initial empty slice literal, then append(x, elem.Value) in the generic iteration
-		var inits, apps []string
-		for _, e := range storesToField(t, "Audience") {
-			if fa := e.Addr.(*FieldAddrV); fa.X.Key() != obj.Key() {
-				continue
-			}
-			if a, ok := e.Val.(*AppendV); ok {
-				es := []string{}
-				for _, x := range a.Elems {
-					es = append(es, ap(x))
-				}
-				apps = append(apps, strings.Join(es, ","))
-				// the appended-to slice must be the field itself (loop carried)
-				if !strings.Contains(a.S.Key(), "Audience") {
-					c.bad("C06-R3", fname, "ProxyRestriction.Audience accumulate", pos, "append does not extend the summary's own Audience slice: "+ap(a.S))
-				}
-			} else {
-				inits = append(inits, ap(e.Val))
-			}
-		}
-		wantElem := "A.Conditions.ProxyRestriction.Audience[*].Value"
-		pls := loopShapeOf(atoms, "A.Conditions.ProxyRestriction.Audience")
-		through := pls.Gen
-		zeroIter := pls.Zero
-		if !through && !zeroIter {
-			c.bad("C06-R3", fname, "ProxyRestriction.Audience accumulate", pos, "the summary is produced without iterating the signed ProxyRestriction Audience list")
-		}
-		if through {
-			exhausted := pls.Exhausted
-			c.check(len(apps) == 1 && apps[0] == wantElem && exhausted, "C06-R3", fname, "ProxyRestriction.Audience accumulate", pos, "one append of "+wantElem+" per iteration, loop left by exhaustion",
-				fmt.Sprintf("audience list not reproduced in order: appends per iteration=%v exhausted=%v", apps, exhausted))
-		}
-		nonNilInit := len(inits) >= 1 && strings.HasPrefix(inits[0], "new<slicelit>")
-		c.check(nonNilInit, "C06-R3", fname, "ProxyRestriction.Audience initialised empty non-nil", pos, "empty slice literal", fmt.Sprintf("initial value %v", inits))
+		c.check(cnt != nil && ap(cnt) == "A.Conditions.ProxyRestriction.Count", "C06-R3", fname, "ProxyRestriction.Count copied", pos, "Count <- signed Count", "Count is "+apOrNone(cnt)+", want A.Conditions.ProxyRestriction.Count")
+		aud, _ := t.finalField(obj, "Audience")
+		src := "A.Conditions.ProxyRestriction.Audience"
+		ok, nonNil, why := accumulated(t, atoms, aud, src, src+"[*].Value")
+		c.check(ok, "C06-R3", fname, "ProxyRestriction.Audience accumulate", pos, "every signed audience value appended once, in order, loop left by exhaustion", "audience list not reproduced in order: "+why)
+		c.check(nonNil, "C06-R3", fname, "ProxyRestriction.Audience initialised empty non-nil", pos, "starts from an empty non-nil slice", "the list does not start from an empty non-nil slice: "+why)
 	}
 	c.count("C06-R3/otu-paths", nOTU)
 	c.floor("C06-R3/otu-paths", 4)
@@ -718,4 +687,90 @@ func ruleC06(c *Ctx) {
 		c.count("C06-R4", n)
 		c.floor("C06-R4", 1)
 	}
+}
+
+// accumulated: is v "the values elem of collection src, in order"? On the zero-iteration path v is an empty slice;
+// on the generic-iteration path v is append(carried, elem) with the loop over src left by exhaustion, where carried is
+// the loop-carried content of the very location the append is stored to (a field or a local), and that location was
+// initialised — before the loop — with an empty slice. nonNil reports whether that initial slice is non-nil.
+func accumulated(t *Terminal, atoms map[string]bool, v Val, src, elem string) (ok bool, nonNil bool, why string) {
+	if v == nil {
+		return false, false, "no value"
+	}
+	ls := loopShapeOf(atoms, src)
+	emptyNonNil := func(x Val) (empty, nn bool) {
+		if isNilConst(x) {
+			return true, false
+		}
+		if isEmptySliceValT(t, x) {
+			return true, true
+		}
+		return false, false
+	}
+	if app, isApp := v.(*AppendV); isApp {
+		if !ls.Gen || !ls.Exhausted {
+			return false, false, "append outside an exhaustive loop over " + src + ": " + ap(v)
+		}
+		if len(app.Elems) != 1 || app.Spread || ap(app.Elems[0]) != elem {
+			return false, false, "appends " + ap(v) + ", want one " + elem + " per iteration"
+		}
+		// carried in a register: a loop-header phi whose entry value is the empty slice
+		if lp, isPhi := app.S.(*LoopPhiV); isPhi {
+			for _, e := range t.St.events {
+				if e.Kind != EvLoopEnter {
+					continue
+				}
+				for _, pi := range e.Phis {
+					if pi.Key == lp.Key() {
+						em, nn := emptyNonNil(pi.Init)
+						if !em {
+							return false, false, "the list starts as " + ap(pi.Init)
+						}
+						return true, nn, ""
+					}
+				}
+			}
+			return false, false, "loop-carried list without a recorded entry value"
+		}
+		// the location carrying the list across iterations
+		u, isU := app.S.(*UnknownV)
+		if !isU || !strings.HasPrefix(u.Why, "loop-carried ") {
+			return false, false, "append does not extend the list carried around the loop: " + ap(app.S)
+		}
+		loc := strings.TrimPrefix(u.Why, "loop-carried ")
+		inits := 0
+		for _, e := range t.St.events {
+			if e.Kind != EvStore || lvalKey(e.Addr) != loc {
+				continue
+			}
+			if a2, isA := e.Val.(*AppendV); isA {
+				if a2.S.Key() != app.S.Key() {
+					return false, false, "a second, different append into " + loc
+				}
+				continue
+			}
+			em, nn := emptyNonNil(e.Val)
+			if !em {
+				return false, false, loc + " is also assigned " + ap(e.Val)
+			}
+			inits++
+			nonNil = nn
+		}
+		if inits == 0 {
+			return false, false, loc + " is never initialised"
+		}
+		return true, nonNil, ""
+	}
+	// no iteration happened on this path
+	em, nn := emptyNonNil(v)
+	if !em {
+		return false, false, "value is " + ap(v)
+	}
+	if !ls.Zero && ls.Gen {
+		return false, nn, "the loop over " + src + " ran but nothing was appended"
+	}
+	if !ls.Zero && !ls.Gen {
+		return false, nn, "the signed list " + src + " is never iterated"
+	}
+	return true, nn, ""
 }
